@@ -721,6 +721,23 @@ pub fn c16(thorough: bool, seed: u64) -> CheckOutput {
         |a, b| a.merge(b),
     );
     acc.merge(tc_acc);
+    // replacement payloads at the ends of every encoding range: gate double 0.0, then the type
+    // choice byte, then the value bytes the replacement draws (i32 / f64 boundary values)
+    {
+        let ivals: [i32; 14] = [0, 1, 255, 256, 257, 65535, 65536, 65537, -1, -256, i32::MAX, i32::MIN, 0x7fff, 0x8000];
+        let originals: [&[u8]; 4] = [&[0x4e], &[0x4b, 0x07], &[0x5d], &[0x8c, 0x01, 0x61]];
+        for orig in originals {
+            for t in 0u8..9 {
+                for v in ivals {
+                    let mut b = vec![0u8; 8];
+                    b.push(t);
+                    b.extend_from_slice(&v.to_le_bytes());
+                    b.extend_from_slice(&[0u8; 8]);
+                    check_typeconfusion(&mut acc, &Ent::Bytes(b), &[0x80, 0x04], orig, true, 1.0, "boundary replacement payload");
+                }
+            }
+        }
+    }
     // synthetic: empty delta, delta with unknown byte, every opcode byte as a 1-byte delta
     for e in ents.iter().take(200) {
         check_typeconfusion(&mut acc, e, &[0x80, 0x04], &[], true, 1.0, "synthetic empty delta");
